@@ -296,7 +296,8 @@ pub fn make_header(cfg: &PicCfg, ptype: u8, rng: &mut Rng) -> Hdr {
                 ptype: if ptype == 0 { 0 } else { 1 },
                 rpr: false,
                 rru: false,
-                rtype: false,
+                // the rounding-type bit of predicted pictures is parsed; the property's interpolation rule does not depend on it
+                rtype: ptype != 0 && rng.chance(1, 3),
                 par: *rng.pick(&[1u8, 2, 3, 4, 5]),
                 pwi: (cfg.w / 4 - 1) as u16,
                 phi: (cfg.h / 4) as u16,
@@ -568,7 +569,8 @@ pub fn gen_flavour_and_size(rng: &mut Rng, max: usize, allow_large_fixed: bool) 
     match rng.below(10) {
         0..=2 => {
             let (w, h) = gen_size(rng, max);
-            (Flavour::Sor(0), w, h)
+            // now and then another value of the 5-bit version field: everything but 1 is decoded like version 0
+            (Flavour::Sor(if rng.chance(1, 8) { 2 + rng.below(30) as u8 } else { 0 }), w, h)
         }
         3..=5 => {
             let (w, h) = gen_size(rng, max);
